@@ -25,10 +25,15 @@ class LemmaSet:
         self.cur = None
         self.query_timeout_ms = 60000
         self.lemma_time_budget = 420.0       # seconds of wall clock per lemma; exceeding it = not decided
+        self.time_box_deadline = None        # quick tier: do not start lemmas after this instant
+        self.skipped = []
 
     # ------------------------------------------------------------------ running lemmas
     def lemma(self, name, fn):
         """Run one lemma body; Unsupported => undecided (sound by refusal)."""
+        if self.time_box_deadline is not None and time.time() > self.time_box_deadline:
+            self.skipped.append(name)
+            return
         self.cur = name
         n0 = len(self.obligations)
         p0 = self.paths
